@@ -8,6 +8,8 @@
     wr len                          => ok <n>
     wr flush                        => default: ok <c> <hex>*c | err <e> <c> <hex>*c   (the c sink calls of this Flush)
                                        bytes:   ok tgt <hex|nil> <cap> | err <e>        (*buf afterwards)
+  The harness marks the Flush lines of a bytes writer after its first successful Flush with a tag
+  ending in `later-epoch` (known finding F15 is keyed on it).
   A trailing token starting with '@' (history tag of the harness) is ignored.
   model column: the writer model (Model/Writer) with mcache's pow2 capacities;
   verdict: the log spec (Spec/WriterLog) evaluated on the implementation's results.
@@ -120,11 +122,16 @@ def wrVerdict (s : WrState) (op : List String) (impl : List String) : String × 
         match impl with
         | ["ok", "tgt", hex, _] =>
           let l' := { l with items := [], emitted := l.emitted ++ l.unflushed }
-          if !l.emitted.isEmpty then ("na", l')      -- later epochs: model only (DESIGN §6.4)
-          else
-            match (if hex == "nil" then some [] else parseHex hex) with
-            | some tgt => (if matchB tgt l.unflushed then "ok" else "bad:C05:target", l')
-            | none => ("bad:protocol", l')
+          match (if hex == "nil" then some [] else parseHex hex) with
+          | some tgt =>
+            if l.emitted.isEmpty then
+              -- first flush epoch: initial contents ++ written bytes
+              (if matchB tgt l.unflushed then "ok" else "bad:C05:target", l')
+            else
+              -- later epochs, read literally: initial contents ++ ALL bytes written so far.  The code
+              -- publishes the latest epoch only (theorem bytesWriter_target_epochs): finding F15.
+              (if matchB tgt (l.emitted ++ l.unflushed) then "ok" else "bad:C05:target-later-epoch", l')
+          | none => ("bad:protocol", l')
         | "err" :: _ => ("bad:C05:spurious-error", l)
         | "PANIC" :: _ => ("bad:C05:panic", l)
         | _ => ("bad:protocol", l)
